@@ -929,22 +929,22 @@ func opens0pos[T any](a, b []T, f *ssa.Function) token.Pos {
 // Only order and ties are used. One comment per tier.
 var refOrder = [][]string{
 	{"=", "+=", "-=", "*=", "/=", "%=", "**=", "<<=", ">>=", ">>>=", "&=", "|=", "^=", "&&=", "||=", "??="}, // AssignmentExpression (right-assoc)
-	{"?"},                          // ConditionalExpression
-	{"||", "??"},                   // LogicalORExpression / CoalesceExpression
-	{"&&"},                         // LogicalANDExpression
-	{"|"},                          // BitwiseORExpression
-	{"^"},                          // BitwiseXORExpression
-	{"&"},                          // BitwiseANDExpression
-	{"==", "!=", "===", "!=="},     // EqualityExpression
+	{"?"},                      // ConditionalExpression
+	{"||", "??"},               // LogicalORExpression / CoalesceExpression
+	{"&&"},                     // LogicalANDExpression
+	{"|"},                      // BitwiseORExpression
+	{"^"},                      // BitwiseXORExpression
+	{"&"},                      // BitwiseANDExpression
+	{"==", "!=", "===", "!=="}, // EqualityExpression
 	{"<", ">", "<=", ">=", "in", "instanceof"}, // RelationalExpression
-	{"<<", ">>", ">>>"},            // ShiftExpression
-	{"+", "-"},                     // AdditiveExpression
-	{"*", "/", "%"},                // MultiplicativeExpression
-	{"**"},                         // ExponentiationExpression (right-assoc)
-	{"<unary>"},                    // UnaryExpression
-	{"++", "--"},                   // UpdateExpression (postfix)
-	{"("},                          // CallExpression
-	{".", "[", "?."},               // MemberExpression (same LeftHandSide tier as calls: <= accepted)
+	{"<<", ">>", ">>>"},                        // ShiftExpression
+	{"+", "-"},                                 // AdditiveExpression
+	{"*", "/", "%"},                            // MultiplicativeExpression
+	{"**"},                                     // ExponentiationExpression (right-assoc)
+	{"<unary>"},                                // UnaryExpression
+	{"++", "--"},                               // UpdateExpression (postfix)
+	{"("},                                      // CallExpression
+	{".", "[", "?."},                           // MemberExpression (same LeftHandSide tier as calls: <= accepted)
 }
 
 // refRightAssoc: the operators of the reference that group to the right.
